@@ -683,6 +683,11 @@ fn operations(thorough: bool) -> Vec<(String, Op)> {
     add("both sub-selections of a repeated field with their own variable", vec!["a", "b"], vec![fs("user", vec![with(f("id"), skip(a()))]), fs("user", vec![with(f("name"), incl(b()))])], vec![]);
     add("a repeated abstract field, one sub-selection with a variable inside a type condition", vec!["a"], vec![fs("node", vec![f("id"), on("User", vec![with(f("name"), incl(a()))])]), fs("node", vec![on("Post", vec![f("title")]), on("User", vec![fs("friend", vec![f("id")])])])], vec![]);
     add("a repeated list field, one sub-selection with a variable", vec!["a"], vec![fs("users", vec![with(f("id"), skip(a()))]), fs("users", vec![f("name")])], vec![]);
+    add("three occurrences of a field, a variable shared by the second and third only", vec!["a", "b"], vec![fs("user", vec![with(f("id"), skip(a()))]), fs("user", vec![with(f("name"), skip(b()))]), fs("user", vec![with(alias("nm", f("name")), skip(b()))])], vec![]);
+    add("an aliased field under a variable next to unconditional fields", vec!["a"], vec![fs("user", vec![f("id"), with(alias("nick", f("name")), incl(a()))])], vec![("FA", "User", vec![f("id"), with(alias("nick", f("name")), skip(a()))])]);
+    add("a leaf selected twice, omitted both times under one assignment", vec!["a", "b"], vec![with(f("n"), skip(a())), with(f("n"), skip(a())), with(f("m"), incl(a())), with(f("m"), incl(b()))], vec![]);
+    add("an object field selected twice, both occurrences omitted", vec!["a"], vec![with(fs("user", vec![f("id")]), skip(Cond::Lit(true))), with(fs("user", vec![f("name")]), incl(Cond::Lit(false))), with(fs("node", vec![f("id")]), skip(a())), with(fs("node", vec![on("User", vec![f("name")])]), skip(a()))], vec![]);
+    add("a leaf directly under a variable and again through a spread under another variable", vec!["a", "b"], vec![fs("user", vec![with(f("id"), incl(a())), with(Sel::Spread { name: "FI", dirs: Dirs::default() }, incl(b()))])], vec![("FI", "User", vec![f("id")])]);
     add("nested fragments", vec![], vec![fs("user", vec![Sel::Spread { name: "A", dirs: Dirs::default() }])], vec![("A", "User", vec![f("id"), Sel::Spread { name: "B", dirs: Dirs::default() }]), ("B", "User", vec![f("name"), fs("friend", vec![Sel::Spread { name: "C", dirs: Dirs::default() }])]), ("C", "User", vec![f("id")])]);
     // every ordered pair of ten sub-selection forms for one field selected twice (merging of sub-selections whose
     // branches depend on variables, fragments and aliases)
